@@ -262,15 +262,54 @@ def _entails_out_of_range(facts, ranges):
     return False
 
 
+_NEGOP = {"==": "!=", "!=": "==", "<": ">=", ">=": "<", ">": "<=", "<=": ">", "is": "is not", "is not": "is", "in": "not in", "not in": "in"}
+
+
 def _lit(facts, t):
-    """Truth of literal term under facts, or None."""
-    if t in facts:
-        return facts[t]
-    if isinstance(t, tuple) and t[0] == "nonnull":
-        tr = facts.get(("truthy", t[1]))
-        if tr is True:
-            return True
+    """Truth of literal term under facts, or None.  Understands the negated comparison operator and equalities /
+    inequalities between two truth-valued terms (hasA != hasB ... if hasA)."""
+    def direct(t):
+        if t in facts:
+            return facts[t]
+        if isinstance(t, tuple) and t[0] == "cmp" and t[1] in _NEGOP:
+            n = ("cmp", _NEGOP[t[1]], t[2], t[3])
+            if n in facts:
+                return not facts[n]
+        if isinstance(t, tuple) and t[0] == "nonnull":
+            tr = facts.get(("truthy", t[1]))
+            if tr is True:
+                return True
+        return None
+    v = direct(t)
+    if v is not None:
+        return v
+    for k, kv in facts.items():
+        if isinstance(k, tuple) and k[0] == "cmp" and k[1] in ("==", "!=", "is", "is not") and len(k) == 4:
+            a, b = k[2], k[3]
+            if t not in (a, b):
+                continue
+            other = b if t == a else a
+            ov = direct(other)
+            if ov is None:
+                continue
+            same = (k[1] in ("==", "is")) == bool(kv)
+            return ov if same else (not ov)
     return None
+
+
+def _refuted(facts, combo):
+    """Do the facts of a path exclude the combination (a list of (literal, value))?"""
+    if any(_lit(facts, t) == (not v) for t, v in combo):
+        return True
+    # two literals of the combination related by an (in)equality the path decided: hasA == hasB excludes (A, not B)
+    for k, kv in facts.items():
+        if isinstance(k, tuple) and k[0] == "cmp" and k[1] in ("==", "!=", "is", "is not") and len(k) == 4:
+            want = dict((t, v) for t, v in combo)
+            if k[2] in want and k[3] in want:
+                same = (k[1] in ("==", "is")) == bool(kv)
+                if same != (want[k[2]] == want[k[3]]):
+                    return True
+    return False
 
 
 def _spurious(ctx, cls, op, reject, ranges, combos, w, ent, type_checks=False):
@@ -350,7 +389,7 @@ def _connect_rules(ctx, cls, ent, accept, reject, w):
         badpath = None
         for p, d, c, how in accept:
             facts = path_facts(p)
-            if not any(_lit(facts, t) == (not v) for t, v in combo):
+            if not _refuted(facts, combo):
                 ok = False
                 badpath = p
                 break
